@@ -110,44 +110,9 @@ def scan_trusted(text):
     return sorted(set(out))
 
 
-def run_unit(unit, threads=4, extra_args=None, rlimit=None, rlimit_scale=1.0):
-    ur = UnitRun(unit)
-    t0 = time.time()
-    udir = os.path.join(VERIF, "units", unit)
-    os.makedirs(WORK, exist_ok=True)
-    gen_path = os.path.join(WORK, f"{unit}.rs" if rlimit_scale == 1.0 else f"{unit}_stab.rs")
-    try:
-        ur.log = splice.build(udir, gen_path)
-    except splice.LostAnchor as e:
-        ur.undecided.append(f"lost anchor: {e}")
-        ur.wall = time.time() - t0
-        return ur
-    gen = open(gen_path, "rb").read()
-    gmap = json.load(open(gen_path + ".map.json"))
-    segs = gmap["segments"]
-    ur.trusted = scan_trusted(gen.decode("utf-8", "replace")) + ur.log["trusted"]
-    ur.labels = sorted(set(re.findall(r"//#\s*(\S+)", gen.decode("utf-8", "replace"))))
-    # per-unit resource limit: `//@@ unit props=.. rlimit=N` (units whose functions carry many *known failing* obligations need a
-    # larger budget, because Verus re-solves once per reported error); never lower than the global default
-    try:
-        _m = re.search(r"//@@ unit\b[^\n]*\brlimit=(\d+)", open(os.path.join(udir, "unit.rs")).read(4000))
-        if _m and not rlimit:
-            rlimit = max(int(_m.group(1)), RLIMIT)
-    except Exception:
-        pass
-    cmd = [VERUS, gen_path, "--error-format=json", "--output-json", "--time-expanded", "--multiple-errors", "200",
-           "--rlimit", str(max(1, int((rlimit or RLIMIT) * rlimit_scale))), "--num-threads", str(threads)] + (extra_args or [])
-    ur.cmd = " ".join(cmd)
-    env = dict(os.environ)
-    p = subprocess.run(cmd, capture_output=True, text=True, cwd=WORK, env=env)
-    ur.raw = p.stderr
-    try:
-        oj = json.loads(p.stdout)
-    except Exception:
-        oj = None
-    fnprops = {f["item"]: f for f in ur.log["functions"]}
-    seen = {}
-    for line in p.stderr.split("\n"):
+def _parse_diagnostics(ur, unit, stderr, gen, gen_path, segs, fnprops, seen, sink=None):
+    """turn Verus' JSON diagnostics into named obligations (appended to ur.failed, or to `sink` when given)"""
+    for line in stderr.split("\n"):
         line = line.strip()
         if not line.startswith("{"):
             continue
@@ -193,7 +158,7 @@ def run_unit(unit, threads=4, extra_args=None, rlimit=None, rlimit_scale=1.0):
         if pseg.get("type") == "canary":
             ur.canary_failed = True
             continue
-        ob = {"unit": unit, "kind": kind, "msg": msg, "line": ps["line_start"]}
+        ob = {"unit": unit, "kind": kind, "msg": msg, "line": ps["line_start"], "span": (ps["byte_start"], ps["byte_end"])}
         # which function does the obligation belong to?
         if kind in ("post", "inv-entry", "inv-step", "inv"):
             # primary span = the clause; belongs to the fn whose contract it is
@@ -259,6 +224,108 @@ def run_unit(unit, threads=4, extra_args=None, rlimit=None, rlimit_scale=1.0):
             continue
         seen[ob["name"]] = ob
         ur.failed.append(ob)
+
+
+def _unmask_pass(ur, unit, cmd, gen, gen_path, segs, fnprops, seen, env, oj):
+    """Verus ASSUMES a failed `assert` for the rest of the function, so obligations behind it are only proved under a now-false fact.
+    When a spliced (contract-text) assertion fails that is labelled for fewer properties than its function serves, re-verify the unit once
+    with exactly those assertions replaced by `assert(true)`: clauses that then fail were masked, and are reported under their own labels
+    (`unmasked_after`). Assertions registered as known findings are never unmasked (their consequences are the recorded defect)."""
+    if ur.undecided or not oj:
+        return
+    try:
+        reg = set()
+        fp = os.path.join(VERIF, "findings", unit + ".json")
+        if os.path.exists(fp):
+            for k in json.load(open(fp)).get("findings", []):
+                reg.update(k.get("obligations", []))
+    except Exception:
+        reg = set()
+    def pick(obs, done):
+        out = []
+        for ob in obs:
+            if ob["kind"] != "assert" or ob.get("origin") not in ("contract", "annot") or ob["name"] in reg or not ob.get("span") or ob["name"] in done:
+                continue
+            f = fnprops.get(ob["fn"])
+            fp_ = set((f or {}).get("props", "").split(",")) - {""} if f else set()
+            if fp_ - set(ob["props"]) and ob["span"][1] - ob["span"][0] >= 4:
+                out.append(ob)
+        return out
+
+    done = {}
+    new = pick(ur.failed, done)
+    g2 = bytearray(gen)
+    p2 = gen_path[:-3] + "_unmask.rs"
+    cmd2 = [p2 if c == gen_path else c for c in cmd]
+    for _round in range(4):  # a chain of assertions each assumed by the next: peel one layer per round
+        if not new:
+            break
+        for ob in new:
+            a, b = ob["span"]
+            g2[a:b] = b"true" + b" " * (b - a - 4)
+            done[ob["name"]] = ob
+        open(p2, "wb").write(bytes(g2))
+        q = subprocess.run(cmd2, capture_output=True, text=True, cwd=WORK, env=env)
+        try:
+            json.loads(q.stdout)
+        except Exception:
+            return
+        u2 = UnitRun(unit)
+        u2.log = ur.log
+        _parse_diagnostics(u2, unit, q.stderr.replace(os.path.basename(p2), os.path.basename(gen_path)), bytes(g2), gen_path, segs, fnprops, {})
+        if u2.undecided:
+            return
+        masked_fns = {ob["fn"] for ob in done.values()}
+        fresh = []
+        for ob in u2.failed:
+            if ob["name"] in seen or ob["fn"] not in masked_fns or ob["name"] in reg:
+                continue
+            ob["unmasked_after"] = sorted(c["name"] for c in done.values() if c["fn"] == ob["fn"])
+            seen[ob["name"]] = ob
+            ur.failed.append(ob)
+            fresh.append(ob)
+        new = pick(fresh, done)
+
+
+def run_unit(unit, threads=4, extra_args=None, rlimit=None, rlimit_scale=1.0):
+    ur = UnitRun(unit)
+    t0 = time.time()
+    udir = os.path.join(VERIF, "units", unit)
+    os.makedirs(WORK, exist_ok=True)
+    gen_path = os.path.join(WORK, f"{unit}.rs" if rlimit_scale == 1.0 else f"{unit}_stab.rs")
+    try:
+        ur.log = splice.build(udir, gen_path)
+    except splice.LostAnchor as e:
+        ur.undecided.append(f"lost anchor: {e}")
+        ur.wall = time.time() - t0
+        return ur
+    gen = open(gen_path, "rb").read()
+    gmap = json.load(open(gen_path + ".map.json"))
+    segs = gmap["segments"]
+    ur.trusted = scan_trusted(gen.decode("utf-8", "replace")) + ur.log["trusted"]
+    ur.labels = sorted(set(re.findall(r"//#\s*(\S+)", gen.decode("utf-8", "replace"))))
+    # per-unit resource limit: `//@@ unit props=.. rlimit=N` (units whose functions carry many *known failing* obligations need a
+    # larger budget, because Verus re-solves once per reported error); never lower than the global default
+    try:
+        _m = re.search(r"//@@ unit\b[^\n]*\brlimit=(\d+)", open(os.path.join(udir, "unit.rs")).read(4000))
+        if _m and not rlimit:
+            rlimit = max(int(_m.group(1)), RLIMIT)
+    except Exception:
+        pass
+    cmd = [VERUS, gen_path, "--error-format=json", "--output-json", "--time-expanded", "--multiple-errors", "200",
+           "--rlimit", str(max(1, int((rlimit or RLIMIT) * rlimit_scale))), "--num-threads", str(threads)] + (extra_args or [])
+    ur.cmd = " ".join(cmd)
+    env = dict(os.environ)
+    p = subprocess.run(cmd, capture_output=True, text=True, cwd=WORK, env=env)
+    ur.raw = p.stderr
+    try:
+        oj = json.loads(p.stdout)
+    except Exception:
+        oj = None
+    fnprops = {f["item"]: f for f in ur.log["functions"]}
+    seen = {}
+    _parse_diagnostics(ur, unit, p.stderr, gen, gen_path, segs, fnprops, seen)
+    _unmask_pass(ur, unit, cmd, gen, gen_path, segs, fnprops, seen, env, oj)
     if oj:
         vr = oj.get("verification-results", {})
         ur.verified = vr.get("verified", 0)
